@@ -218,7 +218,42 @@ def r05_8(ctx):
            "html5ever tree_builder insert_element")
 
 
+def r05_9(ctx):
+    """(a) mark_script_already_started receives a script element: every call is on a path that established that its argument -
+    the current node - is named script, or passes the element just created for a <script> start tag;
+    (b) XML: every Start-phase arm that appends the root element to the document leaves the Start phase (so that nothing that
+    belongs before the root - a doctype - can be appended after it)"""
+    key, pcs = nfq.cells(ctx, "html_tree_builder", "rules::TreeBuilder<Handle,Sink>::step")
+    k = 0
+    bad = None
+    for pc in nfq.feasible(pcs):
+        for a, args in pc["actions"]:
+            if a == "self.sink.mark_script_already_started":
+                k += 1
+                arg = str(args[0]) if args else ""
+                named = any(v and re.fullmatch(r"self\.current_node_named\(atom:script\)(#\d+)?", g) for g, v in pc["guards"].items())
+                created = "create_element" in arg or any(v and re.search(r"name:atom:script", g) and "StartTag" in g for g, v in pc["guards"].items())
+                if not (named or created):
+                    bad = "mark_script_already_started(%s) is called without the node having been established to be a script element (%s)" % (arg[:40], [g[:50] for g, v in pc["guards"].items() if v][:3])
+    ctx.ob("R05.9", "script-marking-only-for-script-elements", bad is None and k >= 1, bad or "%d calls, each for a node known to be a script element" % k, "html5ever tree_builder rules")
+    key, pcs = nfq.cells(ctx, "xml_tree_builder", "XmlTreeBuilder<Handle,Sink>::step")
+    k = 0
+    bad = None
+    for pc in nfq.feasible(pcs):
+        if not pc["guards"].get("p1 matches Start"):
+            continue
+        names = nfq.names(pc)
+        if "self.append_tag_to_doc" in names:
+            k += 1
+            leaves = any(a == "set self.phase" and args and str(args[0]) in ("Main", "End") for a, args in pc["actions"])
+            if not leaves:
+                bad = "a Start-phase arm appends the root element and stays in the Start phase (%s): a later <!DOCTYPE> is appended to the document after the element" % [g[-50:] for g, v in pc["guards"].items() if v and "p2" in g][:1]
+    ctx.ob("R05.9", "xml-root-append-leaves-start-phase", bad is None and k >= 2, bad or "%d root-appending arms, all leave the Start phase" % k, "xml5ever tree_builder step")
+
+
 def run(ctx):
+    ctx.rule("R05.9", "script marking only for script elements; the XML root's arms leave the Start phase")
+    ctx.guard("R05.9", "kinds", lambda: r05_9(ctx))
     ctx.rule("R05.8", "associate_with_form is called only for HTML-namespace form-associated elements, with the form pointer set")
     ctx.guard("R05.8", "form-association", lambda: r05_8(ctx))
     ctx.rule("R05.1", "get_template_contents(x) only under html_elem_named(x, template)")
